@@ -142,6 +142,11 @@ pub struct ArchCase {
     pub shift: u16,
     pub name: u8,
     pub scenario: Scenario,
+    /// priorities of base and patch archive (single-step plain cases only): 0 distinct; 1 equal,
+    /// patch archive added first (it wins the tie and is applied on the base added after it);
+    /// 2 distinct at first, then the base is raised onto the patch archive's priority
+    #[serde(default)]
+    pub tie: u8,
 }
 
 pub fn run(check: &Check, case: &ArchCase, origin: &str) -> CaseResult {
@@ -213,12 +218,26 @@ pub fn run(check: &Check, case: &ArchCase, origin: &str) -> CaseResult {
         }
         members.push((p, 1000));
     }
+    let tie = if case.scenario == Scenario::Plain && case.steps.len() == 1 && members.len() == 2 { case.tie % 3 } else { 0 };
+    if tie == 1 {
+        let top = members[1].1;
+        members[0].1 = top;
+    }
     let mut chain = PatchChain::new();
     // insertion order must not matter: newest first
     for (p, prio) in members.iter().rev() {
         if let Err(e) = engine::guard("chain::add_archive", || chain.add_archive(p, *prio))? {
             return Err(Fail::new("chain-patch:add_archive-rejects-archive-with-patch-entry", format!("{e}")));
         }
+    }
+    if tie == 2 {
+        let (base_path, top) = (members[0].0.clone(), members[1].1);
+        if let Err(e) = engine::guard("chain::set_priority", || chain.set_priority(&base_path, top))? {
+            return Err(Fail::new("chain:set_priority:error-for-member", format!("{e}")));
+        }
+    }
+    if tie != 0 {
+        check.bump(&format!("archive_patch_base_ties_with_patch_archive:mode{tie}"), 1);
     }
     let probe = name.to_ascii_uppercase();
     let r = engine::guard("chain::read_file(patch entry)", || chain.read_file(&probe))?;
@@ -285,6 +304,7 @@ fn case_strategy() -> impl Strategy<Value = ArchCase> {
         proptest::collection::vec(step_strategy(), 1..=2),
         0u16..=3,
         any::<u8>(),
+        0u8..3,
         prop_oneof![
             6 => Just(Scenario::Plain),
             2 => Just(Scenario::WrongBase),
@@ -294,7 +314,7 @@ fn case_strategy() -> impl Strategy<Value = ArchCase> {
             3 => any::<u32>().prop_map(|off| Scenario::CorruptPayload { off }),
         ],
     )
-        .prop_map(|((c, len, seed), steps, shift, name, scenario)| ArchCase { base: Blob { class: vcheck::gens::mpq::ALL_CLASSES[c], len, seed }, steps, shift, name, scenario })
+        .prop_map(|((c, len, seed), steps, shift, name, tie, scenario)| ArchCase { base: Blob { class: vcheck::gens::mpq::ALL_CLASSES[c], len, seed }, steps, shift, name, scenario, tie })
 }
 
 pub fn grid() -> Vec<ArchCase> {
@@ -307,14 +327,14 @@ pub fn grid() -> Vec<ArchCase> {
                 if scenario != Scenario::Plain && (i + storage as usize) % 4 != 0 {
                     continue;
                 }
-                v.push(ArchCase { base: c.base, steps: vec![Step { kind: c.kind.clone(), incl_header: c.incl_header, storage }], shift: (i % 3) as u16, name: (i * 7 + storage as usize) as u8, scenario });
+                v.push(ArchCase { base: c.base, steps: vec![Step { kind: c.kind.clone(), incl_header: c.incl_header, storage }], shift: (i % 3) as u16, name: (i * 7 + storage as usize) as u8, scenario, tie: (i % 3) as u8 });
             }
         }
     }
     // two-step chains
     let copy = Step { kind: Kind::Copy { new: Blob { class: ContentClass::Text, len: 700, seed: 5 } }, incl_header: true, storage: 1 };
     for (i, c) in picks.iter().enumerate().filter(|(_, c)| c.is_bsd0()).take(6) {
-        v.push(ArchCase { base: c.base, steps: vec![copy.clone(), Step { kind: c.kind.clone(), incl_header: false, storage: (i % 3) as u8 }], shift: 0, name: i as u8, scenario: Scenario::Plain });
+        v.push(ArchCase { base: c.base, steps: vec![copy.clone(), Step { kind: c.kind.clone(), incl_header: false, storage: (i % 3) as u8 }], shift: 0, name: i as u8, scenario: Scenario::Plain, tie: 0 });
     }
     v
 }
